@@ -10,7 +10,7 @@ T = "offset::local::tz_info::timezone::TimeZone::"
 def run(chk, tier):
     P = Prog("default")
     chk.configs.add("default")
-    for r in (r_thread_local, r_reload_table, r_threshold, r_fallbacks, r_dispatch, r_find_file, r_refresh_first):
+    for r in (r_thread_local, r_reload_table, r_threshold, r_fallbacks, r_dispatch, r_find_file, r_refresh_first, r_whole_sources):
         chk.guarded(r, P, tier)
     chk.assume("timing, file-system state, the actual zone selected for an environment and cross-thread histories are NOT decided: the property quantifies over histories and "
                "schedules; only the structure of the reload decision and of the selection order is")
@@ -127,9 +127,11 @@ def r_fallbacks(chk, P, tier):
             first, second = inner[2]
             ok = second == ("fn", "offset::local::inner::fallback_timezone") and any(is_call(x, name=T + "local") and arg_field(x[2][0]) == (1, None) for x in walk_terms(first))
     chk.expect(ok, "current_zone", "current_zone is %s" % [pp(x)[:200] for x in r], loc=P.loc(fn))
-    d = [n for n in P.fns if n.startswith("<offset::local::inner::Cache as std::default::Default>::default")]
-    cs = callees(P, d[0]) if d else set()
-    chk.expect("std::env::var" in cs and "offset::local::inner::current_zone" in cs, "Cache::default", "Cache::default does not read TZ and select the zone")
+    # the initial cache (Default::default or a private constructor): whichever function builds a Cache from nothing reads TZ and selects the zone through current_zone
+    builders = [n for n in P.fns if P.has(n) and n.startswith(("<offset::local::inner::Cache as", "offset::local::inner::Cache::")) and "{" not in n
+                and "offset::local::inner::current_zone" in callees(P, n) and n.split("::")[-1] not in ("offset",)]
+    ok = any("std::env::var" in callees(P, n) for n in builders)
+    chk.expect(ok, "Cache::default", "no constructor of Cache reads TZ (std::env::var) and selects the zone through current_zone (found: %s)" % [b.split("::")[-1] for b in builders])
 
 
 def r_dispatch(chk, P, tier):
@@ -187,7 +189,13 @@ def r_dispatch(chk, P, tier):
         raise AnchorLost("from_posix_tz: no path parses a TZ rule")
     chk.expect(bad_ == 0, "file lookup before rule", "from_posix_tz parses the string as a POSIX rule on %d of %d paths without having tried it as a zone file name first" % (bad_, nr), loc=P.loc(fn))
     loc = [p.ret for p in Sym(P, T + "local").paths() if p.end[0] == "return"]
-    ok = any(any(is_call(x, name=fn) for x in walk_terms(r)) for r in loc) and any(any(is_call(x, name=fn) and const_of(unref(x[2][0])) == "localtime" for x in walk_terms(r)) for r in loc)
+    def to_localtime(x):
+        """from_posix_tz("localtime"), or from_posix_tz(env_tz.unwrap_or("localtime"))"""
+        if not is_call(x, name=fn):
+            return False
+        a = unref(x[2][0])
+        return const_of(a) == "localtime" or (is_call(a, suffix="::unwrap_or") and const_of(unref(a[2][1])) == "localtime" and arg_field(unref(a[2][0])) == (1, None))
+    ok = any(any(is_call(x, name=fn) for x in walk_terms(r)) for r in loc) and any(any(to_localtime(x) for x in walk_terms(r)) for r in loc)
     chk.expect(ok, "TimeZone::local", "TimeZone::local(None) does not fall back to from_posix_tz(\"localtime\")")
 
 
@@ -234,3 +242,34 @@ def r_refresh_first(chk, P, tier):
         raise AnchorLost("Cache::offset: %d staleness tests, %d lookups" % (len(test), len(looks)))
     for bi, c in looks:
         chk.expect(cfg.dominates(test[0], bi), c.split("::")[-1], "Cache::offset reaches %s without having tested whether the cached zone is stale" % c.split("::")[-1], loc=P.loc(fn))
+
+
+def r_whole_sources(chk, P, tier):
+    """the zone is read from the whole named file and the cache key is the whole TZ value: (1) TimeZone::from_file reads the File it was given to the end (read_to_end / read_to_string
+    on the argument itself, not on a limiting adapter) and parses exactly the bytes read; (2) Source::new hashes the bytes of the TZ value it was given, unmodified - two TZ values
+    that select different zones (`JST-9` is a rule, `:JST-9` a file name) must not share a key"""
+    chk.rule("WHOLE.sources", "TimeZone::from_file reads its File argument to the end without an adapter; Source::new hashes as_bytes() of the unmodified TZ value", floor=2)
+    fn = T + "from_file"
+    reads = set()
+    for p in Sym(P, fn).paths():
+        for c in p.calls:
+            if isinstance(c[1], str) and ("::read_to_end" in c[1] or "::read_to_string" in c[1] or "::read_exact" in c[1] or c[1].endswith("::read")):
+                reads.add((c[1].split(" as ")[0].lstrip("<"), pp(unref(c[2][0]))))
+    if not reads:
+        raise AnchorLost("TimeZone::from_file: no read call found")
+    ok = all(pp_ in ("arg1", "*arg1") and ("read_to_end" in n or True) for n, pp_ in reads) and all(n == "std::fs::File" for n, _ in reads) and any(True for _ in reads)
+    whole = any("read_to_end" in c[1] or "read_to_string" in c[1] for p in Sym(P, fn).paths() for c in p.calls if isinstance(c[1], str))
+    chk.expect(ok and whole, "from_file", "TimeZone::from_file reads through %s (expected: read_to_end on the File argument itself)" % sorted(reads), loc=P.loc(fn))
+    fn = "offset::local::inner::Source::new"
+    ws = set()
+    for p in Sym(P, fn).paths():
+        for c in p.calls:
+            if isinstance(c[1], str) and c[1].endswith("Hasher>::write") or (isinstance(c[1], str) and "::hash::Hash" in c[1] and c[1].endswith("::hash")):
+                a = c[2][1] if c[1].endswith("Hasher>::write") else c[2][0]
+                inner = [x for x in walk_terms(a) if x[0] == "call"]
+                names = sorted(str(x[1]).split("::")[-1] for x in inner)
+                ws.add((tuple(names), any(x == ("as", ("arg", 1), "Some") or (x[0] == "as" and x[1] == ("arg", 1)) for x in walk_terms(a))))
+    if not ws:
+        raise AnchorLost("Source::new: no hashing call found")
+    ok = all(names in (("as_bytes",), ()) and from_arg for names, from_arg in ws)
+    chk.expect(ok, "Source::new", "Source::new hashes %s of the TZ value (expected: as_bytes() of the value itself, no stripping or trimming)" % sorted(ws), loc=P.loc(fn))
